@@ -21,14 +21,22 @@
 //	               the mtime of its parent directory: that single timestamp is ignored in the "destination missing" cases.
 //	               The archive file itself is compared byte for byte instead of being part of the dump.
 //	(3) refusal  : if the RAW entry name resolves lexically ('/' is the only separator on this platform) outside the
-//	               top-level destination, the call must fail with the kind "suspected malicious intent". Nothing is asked
+//	               top-level destination, the call must fail with the kind "suspected malicious intent" (when the archive
+//	               has an entry before it, which might fail first for its own reasons: the call must fail). Nothing is asked
 //	               about names that resolve inside (refusing a legal name is C07's concern), nor about what a name
 //	               becomes after transcoding: a transcoded name that leaves the destination is caught by (1)/(2) when,
 //	               and only when, something is really written outside.
 //
-// Determinism: the charset detector sees the joined path, sandbox root included; the root therefore has a fixed
-// length and varies only in decimal digits (/dev/shm/verif-c02-<7 digits>/s<2 digits>), which no recogniser of
-// chardet distinguishes. Verdicts and counts are the same on every run.
+// Nondeterminism inside the repository, made exhaustive: a path that is not valid UTF-8 is transcoded with the charset
+// github.com/gogs/chardet reports as "best"; among charsets tied at the highest confidence chardet returns whichever
+// recogniser goroutine delivers first (about 30 % of the non-UTF-8 paths of this check have such a tie, ISO-2022-JP vs a
+// single-byte charset included). checks/c02/prebuild.sh overlays the one DetectBest call site in utils/charset/charset.go
+// with an equivalent in which the harness picks the winner; every case is executed once per resolution of the ties it
+// meets (depth-first over the choice vector). Same set of behaviours as the original, but every one of them, every run.
+//
+// Determinism: the detector sees the joined path, sandbox root included; the root has a fixed length and varies only
+// in decimal digits (/dev/shm/verif-c02-<7 digits>/s<2 digits>), which no recogniser of chardet distinguishes.
+// Verdicts and counts are the same on every run.
 package c02
 
 import (
@@ -734,7 +742,9 @@ func (s *sandbox) runCase(c *caseSpec) (res caseResult, engineErr error) {
 		add(fmt.Sprintf("archive-modified:nest=%d", nest), "the source archive was modified by the extraction")
 	}
 	// clause (3)
-	if res.refOut && res.ErrKind != "malicious" {
+	// (in the two-entry shapes an earlier entry may legitimately fail first with another kind: there only "no failure" counts)
+	twoEntries := c.Shape == shapeAfterDir || c.Shape == shapeAfterSymlink
+	if res.refOut && res.ErrKind != "malicious" && (res.ErrKind == "ok" || !twoEntries) {
 		result := "other-error"
 		if res.ErrKind == "ok" {
 			result = "ok"
@@ -920,6 +930,15 @@ func TestC02(t *testing.T) {
 		}
 		defer os.RemoveAll(parent)
 		os.Setenv("VERIF_C02_ROOT", parent)
+	}
+	if _, _, isShard := ev.ShardEnv(); !isShard {
+		// leftovers of runs that were killed (nothing a run depends on)
+		old, _ := filepath.Glob("/dev/shm/verif-c02-[0-9]*")
+		for _, d := range old {
+			if fi, err := os.Stat(d); err == nil && time.Since(fi.ModTime()) > 12*time.Hour {
+				_ = os.RemoveAll(d)
+			}
+		}
 	}
 	results, isWorker := ev.Sharded(t, ev.Workers(), worker)
 	if isWorker {
